@@ -160,6 +160,7 @@ func (w *world) boot(cfg *CfgSpec) error {
 			for _, x := range u {
 				if c, ok := w.rt.ctrs[x.ContainerId]; ok {
 					c.t.staleUntilNextUpdate = true
+					c.lostPush = true
 				}
 			}
 			return nil, fmt.Errorf("injected UpdateContainers failure")
